@@ -72,6 +72,14 @@ fn main() {
                 Err(_) => write!(out, " | B {} P", off).unwrap(),
             }
         }
+        for off in 0..=text.len() + 1 {
+            let r = catch(std::panic::AssertUnwindSafe(|| cache.byte_to_line_byte(off)));
+            match r {
+                Ok(Some(l)) => write!(out, " | Y {} {}", off, l).unwrap(),
+                Ok(None) => write!(out, " | Y {} -", off).unwrap(),
+                Err(_) => write!(out, " | Y {} P", off).unwrap(),
+            }
+        }
         for &off in bounds.iter().chain(std::iter::once(&(text.len() + 1))) {
             let r = catch(std::panic::AssertUnwindSafe(|| {
                 cache.byte_to_line_num_and_col_num(&text, off)
